@@ -128,6 +128,33 @@ CLAIMED = {
             "counts, generic specialisations) is compared shot-by-shot against fresh pipelines on generated programs (bounded), not proved.",
             "Trusted: Lean kernel (core-only), generators, harness+orchestrator; the process-global RNG is replaced by forced draws on both sides.",
             "DESIGN.md §4 C18"),
+    "C05": ("Lean 4 theorems about the simulator model for every scalar instance and every history: a performed operation appends exactly its "
+            "own log line, refused operations and allocations append nothing (log = performed operations, once, in execution order); every "
+            "logged operand is in range of the final register and cx operands are distinct; the program text is the header for the final size "
+            "plus one line per performed operation + exact correspondence of the emitted text (model vs simulator, after every operation) + an "
+            "independent OpenQASM 2.0 parser/interpreter written from the documented mapping that replays the text with the recorded outcomes "
+            "and compares the final state (global phase, 1e-6 angle precision); file written next to the source vs --emit-qasm output",
+            "Proof on the model for every history; PARTIAL: the replay clause (interleaved allocation equals allocation up front, "
+            "six-decimal angles) is decided by the independent interpreter on generated programs, not by a theorem.",
+            "Trusted: Lean kernel, independent interpreter tools/qasmlib.py, generators, harness+orchestrator. Defect found and repaired: "
+            "cx(q,q) emitted an ill-formed line.", "DESIGN.md §4 C05"),
+    "C06": ("Lean 4 theorems about the evaluator's measured-flag machine for every operation history: the first refused operation touches a "
+            "qubit whose last {declare, reset, measure} event was a measure, and if nothing is refused no touched qubit was in that state "
+            "(measure-array marks every element); the evaluator model's guard is that machine's test + EXHAUSTIVE operation sequences up to "
+            "length 4 (5 in the thorough tier) over two qubits rendered through every access path (array element, function parameter, "
+            "qubit[] parameter, object field, method using the bare field / this.field) with the Lean machine as oracle and the Lean "
+            "evaluator as reference for the class-free renderings",
+            "Proof on the flag machine for every history; the access-path clause (aliasing in the evaluator) is tied by exhaustive small "
+            "sequences through every path (bounded), PARTIAL for object fields (no Lean evaluator reference for classes).",
+            "Trusted: Lean kernel (core-only), renderer, harness+orchestrator.", "DESIGN.md §4 C06"),
+    "C09": ("Lean 4 theorems about the evaluator model's environment: a call starts a frame of one empty scope, lookup is a function of the "
+            "current frame only (a callee never sees caller locals), an assignment leaves every scope below the current frame unchanged (never "
+            "changes them) + differential renaming runs: seeded class-free programs x single-function renamings to fresh and to colliding "
+            "names (real pipeline and Lean evaluator), class programs rendered with colliding vs all-fresh local/parameter names",
+            "Proof on the model's scope discipline; PARTIAL: the renaming corollary for whole programs and the class fragment (fields, "
+            "methods, constructors, field initialisers) are checked differentially (bounded), not by an alpha-equivalence theorem.",
+            "Trusted: Lean kernel (core-only), generators, harness+orchestrator. Defect found and repaired: dynamic scoping through the "
+            "caller's frames (fac25a0).", "DESIGN.md §4 C09"),
 }
 PENDING_REASON = "check not built yet in this revision of /verif (planned: Lean model + correspondence, see DESIGN.md §4)"
 
